@@ -34,6 +34,7 @@ def _d(tier):
 def describe(tier, seed):
     al = P.alphabets(seed, "ios", GROUPS)
     return dict(deviation_bound=_d(tier), positions=16, skip_arguments=P.SKIPS,
+                note="three deviating positions range over the reduced alphabets (small=True)",
                 alphabet_sizes={k: len(v) for k, v in al.items()},
                 base_pairs=[(t.text("ios"), b.text("ios")) for t, b in P.base_pairs(seed)])
 
@@ -56,7 +57,7 @@ def run_unit(unit, ctx):
         _acl_level(unit["platform"], ctx)
         return
     plat = unit["platform"]
-    alph = P.alphabets(ctx.seed, plat, GROUPS)
+    alph = P.alphabets(ctx.seed, plat, GROUPS, small=len(unit["pos"]) >= 3)
     base = P.base_pairs(ctx.seed)[unit["base"]]
     n = 0
     for top, bot in P.pairs_for(base, tuple(unit["pos"]), alph):
